@@ -169,6 +169,23 @@ def ref_pvalue(w, N, Ks):
     for k in Ks:
         a *= k
     b = N ** len(Ks)  # q = a / b
+    if N > 20000:
+        # exact integer arithmetic is out of reach here: sum the tail in the log domain (lgamma; absolute error in the
+        # logarithm ~1e-10), from j = w upwards until the terms no longer matter
+        q = float(Fraction(a, b))
+        if q <= 0:
+            return 1.0 if w <= 0 else 0.0
+        if q >= 1:
+            return 1.0
+        lg = math.lgamma
+        tot, j = 0.0, w
+        while j <= N:
+            t = math.exp(lg(N + 1) - lg(j + 1) - lg(N - j + 1) + j * math.log(q) + (N - j) * math.log1p(-q))
+            tot += t
+            if j > N * q and t < 1e-18 * tot:
+                break
+            j += 1
+        return min(tot, 1.0)
     tail = 0
     for j in range(w, N + 1):
         tail += math.comb(N, j) * a**j * (b - a) ** (N - j)
@@ -230,6 +247,12 @@ def svh_case(ctx, rng, idx):
         if cand:
             w = rng.choice(cand)
             es = {g: w for g in groups}
+    if idx == 5 or (ctx.tier == "thorough" and idx % 3000 == 5):
+        # more than 100 000 occurrences of one size (the counts N and K_i are weight totals): the binomial tail in the
+        # rare-event regime, where a Poisson limit is close but not equal
+        ctx.event("svh:120000-occurrences")
+        weighted, fam = True, 1.0
+        es = {(1, 2): 40, (3, 4): 3, (5, 6): 60000, (7, 8): 60000, (1, 9, 10): 2}
     h = hgx.Hypergraph(list(es), weighted=weighted, weights=list(es.values()) if weighted else None)
     max_order = rng.choice([2, 3, 4, 5, 10]) if fam >= 0.12 else 10
 
